@@ -72,7 +72,8 @@ def compare(rec, gen, x):
         if g.shape != w.shape:
             return 'step %d has shape %s, model %s' % (i, g.shape, w.shape)
         e = rec['exps'][i][0] / rec['exps'][i][1]
-        tol = 1e-12 * np.abs(w) + (4.5e-16 * abs(ratio) ** e if rec['exact'] else 0.0)
+        # exact steps are multiples of 2^-52 scaled by ratio^e: the model's base may round to the neighbouring multiple (one unit)
+        tol = 1e-12 * np.abs(w) + (2.3e-16 * abs(ratio) ** e if rec['exact'] else 0.0)
         if rec['fam'] == 'spiral' and rec['angles']:
             # the angle of step i is dtheta * exponent (units of pi), from the specification
             ang = np.pi * rec['angles'][i][0] / rec['angles'][i][1]
